@@ -96,14 +96,15 @@ class RecordingPool(simpool.MPPool):
 # point clouds
 # ---------------------------------------------------------------------------
 CLOUDS = ['blob', 'two', 'three', 'elongated', 'curved', 'face', 'corner',
-          'wrapped', 'fill', 'many', 'triangles']
+          'wrapped', 'fill', 'many', 'triangles', 'degenerate']
 
 
 def draw_cloud(rng, d=None, kinds=None):
     d = d or rng.choice([2, 2, 3, 3, 4, 5, 6, 8])
     return dict(kind=rng.choice(kinds or CLOUDS), d=d,
                 n=rng.choice([40, 80, 150, 300]), seed=rng.randrange(2**31),
-                width=rng.choice([0.02, 0.05, 0.1]))
+                width=rng.choice([0.02, 0.05, 0.1]),
+                thin=rng.choice([1e-3, 1e-4, 1e-6, 1e-7, 1e-8]))
 
 
 def make_cloud(spec):
@@ -166,6 +167,13 @@ def make_cloud(spec):
         xy = np.vstack(tri)
         pts = gauss(np.full(d, 0.5), w * 0.2, len(xy))
         pts[:, :2] = xy
+    elif kind == 'degenerate':
+        # two parameters that are almost exactly linearly dependent (not
+        # axis-aligned): an extremely thin, rotated ellipsoid
+        pts = gauss(g.uniform(0.4, 0.6, d), w, n)
+        slope = g.uniform(0.3, 0.9) * g.choice([-1.0, 1.0])
+        thin = spec.get('thin', 1e-7)
+        pts[:, 1] = 0.5 + slope * (pts[:, 0] - 0.5) + g.normal(size=n) * thin
     elif kind == 'wrapped':
         pts = gauss(g.uniform(0.3, 0.7, d), w, n)
         pts[:, 0] = (g.normal(size=n) * w) % 1.0
@@ -199,7 +207,7 @@ def draw_bound_spec(rng, classes=None, d_max=8, clouds=None, networks=None):
         d = min(d, 5)
     cloud = draw_cloud(rng, d, clouds)
     if d == 1 and cloud['kind'] in ('curved', 'elongated', 'triangles',
-                                    'many'):
+                                    'many', 'degenerate'):
         cloud['kind'] = rng.choice(['blob', 'two', 'three', 'face', 'fill'])
     if cls != 'Union' and cloud['kind'] == 'many':
         # a dozen clusters make NautilusBound.compute spend minutes in the
@@ -403,9 +411,13 @@ def check_c07_enclosure(s, obj, step, g):
             inb = np.asarray(obj.contains(pts))
             if not np.all(inb):
                 j = int(np.flatnonzero(~inb)[0])
+                regime = ''
+                if s.spec['cloud']['kind'] == 'degenerate':
+                    regime = ' [degenerate cloud, relative thickness ' \
+                        '{:g}]'.format(s.spec['cloud'].get('thin', 0))
                 _bad('C07', 'construction_point_not_enclosed',
                      '{}: construction point {} is not contained (enlarge '
-                     '{})'.format(cls, j, s.spec['enlarge']), step,
+                     '{}){}'.format(cls, j, s.spec['enlarge'], regime), step,
                      point=pts[j])
     if cls in ('NeuralBound', 'NautilusBound'):
         p = probe_points(s, g, 100)
